@@ -9,11 +9,13 @@ import SquidModel.Properties.C46
 #print axioms SquidModel.C46.no_request_stranded
 #print axioms SquidModel.C46.reply_decides_all_waiters
 #print axioms SquidModel.C46.forwarded_only_after_own_credentials_verified_partial
+#print axioms SquidModel.C46.ok_means_current_password_verified_partial
 #print axioms SquidModel.C46.fixed_forwarded_only_after_own_credentials_verified
 #print axioms SquidModel.C46.current_tree_sound_when_repaired
 #print axioms SquidModel.C46.rejected_credentials_never_forwarded_partial
 #print axioms SquidModel.C46.race_outputs
 #print axioms SquidModel.C46.race_counterexample
+#print axioms SquidModel.C46.ok_means_current_password_verified_counterexample
 #print axioms SquidModel.C46.race_counterexample_queued
 #print axioms SquidModel.C46.race_repaired
 #print axioms SquidModel.C46.valid_credentials_may_be_challenged
